@@ -110,8 +110,11 @@ type FaultReader struct {
 	// WithData: the Read that delivers the last byte before the failure
 	// returns it together with Err (n > 0, err != nil), as io.Reader allows.
 	WithData bool
-	pos      int
-	Fired    int
+	// Once: the failure is transient: exactly one Read fails, after which the
+	// source carries on delivering the rest of Data and a clean io.EOF.
+	Once  bool
+	pos   int
+	Fired int
 }
 
 func (r *FaultReader) Read(p []byte) (int, error) {
@@ -123,6 +126,22 @@ func (r *FaultReader) Read(p []byte) (int, error) {
 	lim := r.FailAt
 	if lim > len(r.Data) {
 		lim = len(r.Data)
+	}
+	if r.Once && r.Fired > 0 {
+		// transient failure already delivered: continue with the rest
+		if r.pos >= len(r.Data) {
+			return 0, io.EOF
+		}
+		n := len(r.Data) - r.pos
+		if n > len(p) {
+			n = len(p)
+		}
+		if r.Max > 0 && n > r.Max {
+			n = r.Max
+		}
+		copy(p, r.Data[r.pos:r.pos+n])
+		r.pos += n
+		return n, nil
 	}
 	if r.pos >= lim {
 		if r.FailAt > len(r.Data) {
